@@ -1,6 +1,6 @@
 // Shared harness for C01/C02: real cppcms::service instances (one per front-end: embedded HTTP on a
 // loopback TCP port, SCGI and FastCGI on unix sockets in the current directory) with an echo
-// application mounted three times (sync "/s", async "/a", async + raw content filter "/f"), and a
+// application mounted four times (sync "/s", async "/a", async + raw content filter "/f", sync catch-all), and a
 // client that plays a case's byte string with the case's segmentation.
 //
 // Observation points (no source hooks; link-time interposition only):
@@ -95,7 +95,7 @@ struct filter_data {
 
 class echo : public cppcms::application, public cppcms::http::raw_content_filter {
 public:
-	int kind; // 0 sync, 1 async, 2 async + content filter
+	int kind; // 0 sync, 1 async, 2 async + content filter, 3 sync catch-all (any other SCRIPT_NAME, also none)
 	echo(cppcms::service &s,int k) : cppcms::application(s), kind(k) {}
 	virtual void on_data_chunk(void const *p,size_t n)
 	{
@@ -118,7 +118,7 @@ public:
 		}
 		g_stats.main_ready++;
 		std::string out;
-		put_rec(out,'M',"kind",kind==0?"sync":kind==1?"async":"filter");
+		put_rec(out,'M',"kind",kind==0?"sync":kind==1?"async":kind==2?"filter":"default");
 		std::map<std::string,std::string> env=request().getenv();
 		for(std::map<std::string,std::string>::const_iterator p=env.begin();p!=env.end();++p)
 			put_rec(out,'E',p->first,p->second);
@@ -145,7 +145,7 @@ public:
 		put_rec(out,'M',"files",std::to_string(request().files().size()));
 		put_rec(out,'Z',"","");
 		response().content_type("application/octet-stream");
-		if(kind==0) response().io_mode(cppcms::http::response::nogzip);
+		if(kind==0 || kind==3) response().io_mode(cppcms::http::response::nogzip);
 		response().out().write(out.data(),out.size());
 	}
 };
@@ -203,6 +203,7 @@ struct server {
 				srv->applications_pool().mount(cppcms::create_pool<echo>(0),cppcms::mount_point("/s"));
 				srv->applications_pool().mount(cppcms::create_pool<echo>(1),cppcms::mount_point("/a"),cppcms::app::asynchronous);
 				srv->applications_pool().mount(cppcms::create_pool<echo>(2),cppcms::mount_point("/f"),cppcms::app::asynchronous | cppcms::app::content_filter);
+				srv->applications_pool().mount(cppcms::create_pool<echo>(3));
 				dead=false; exc.clear();
 				runner r={this};
 				thr.reset(new booster::thread(r));
